@@ -457,6 +457,9 @@ func (x *Exec) loopSpecResolvable(fr *Frame, lp *loop, ls *loopSpec, st *State) 
 			continue
 		}
 		for _, n := range names {
+			if strings.HasPrefix(n, "old:@") {
+				continue // prev(e): resolvable once the head state of an iteration exists
+			}
 			x.resolveName(fr, lp.header, n, st)
 		}
 	}
@@ -466,6 +469,53 @@ func (x *Exec) loopSpecResolvable(fr *Frame, lp *loop, ls *loopSpec, st *State) 
 // resolveName finds the SSA value holding source variable name at header hdr.
 func (x *Exec) resolveName(fr *Frame, hdr *ssa.BasicBlock, name string, st *State) Value {
 	fn := fr.fn
+	if strings.HasPrefix(name, "old:@") {
+		// prev(e): evaluated in the state at the head of the current iteration
+		hn := name[5:]
+		if v, ok := x.oldCache["@"+hn]; ok {
+			return v
+		}
+		ls := x.loopSpecHolding(hn)
+		if ls == nil {
+			unsup("prev() helper %s not available", hn)
+		}
+		head := ls.headState
+		if head == nil && x.target != nil {
+			// a clause of an inner loop: prev() means the head of the enclosing
+			// loop that has step clauses (the lowest ordinal with a saved head state)
+			best := -1
+			for n, o := range x.target.Loops {
+				if o.headState != nil && (best < 0 || n < best) {
+					best, head = n, o.headState
+				}
+			}
+		}
+		if head == nil {
+			unsup("prev() helper %s not available", hn)
+		}
+		var args []Value
+		for _, pn := range ls.paramsOf[hn] {
+			var v Value
+			for _, p := range fn.Params {
+				if p.Name() == pn {
+					v = x.get(fr, p)
+				}
+			}
+			if v == nil {
+				unsup("prev(): %s is not a parameter", pn)
+			}
+			args = append(args, v)
+		}
+		res, nst := x.callFunction(ls.oldSSA[hn], args, nil, head.clone())
+		if nst == nil {
+			unsup("prev() helper does not return")
+		}
+		if x.oldCache == nil {
+			x.oldCache = map[string]Value{}
+		}
+		x.oldCache["@"+hn] = res[0]
+		return res[0]
+	}
 	if strings.HasPrefix(name, "old:#") {
 		hn := name[5:]
 		if v, ok := x.oldCache[hn]; ok {
@@ -720,6 +770,15 @@ func (x *Exec) enterLoop(fr *Frame, lp *loop, st *State) {
 	if ls != nil && ls.splitSSA != nil {
 		x.applyLoopSplit(fr, lp, ls, st)
 	}
+	if ls != nil && len(ls.stepSSA) > 0 {
+		ls.headState = st.clone()
+		delete(x.oldCache, "")
+		for k := range x.oldCache {
+			if strings.HasPrefix(k, "@") {
+				delete(x.oldCache, k)
+			}
+		}
+	}
 	defer func() {
 		if x.panicFn != nil && ls != nil && ls.panicPoint {
 			x.establishPanicPred(st, hdr.Instrs[0].Pos(), fmt.Sprintf("loop%d", lp.ordinal))
@@ -809,6 +868,14 @@ func (x *Exec) backEdge(fr *Frame, lp *loop, from *ssa.BasicBlock, cond *Term, s
 	for k, f := range ls.invSSA {
 		v := x.evalLoopFn(fr, hdr, ls, ls.invFns[k], f, sub)
 		x.oblige(sub, "inv-step", ls.invName(lp.ordinal, k), v, from.Instrs[len(from.Instrs)-1].Pos())
+	}
+	for k, f := range ls.stepSSA {
+		v := x.evalLoopFn(fr, hdr, ls, ls.stepFns[k], f, sub)
+		name := fmt.Sprintf("loop%d.%d", lp.ordinal, k)
+		if ls.steps[k].label != "" {
+			name = fmt.Sprintf("loop%d.%s", lp.ordinal, ls.steps[k].label)
+		}
+		x.oblige(sub, "step", name, v, from.Instrs[len(from.Instrs)-1].Pos())
 	}
 	if ls.decrSSA != nil && len(lp.decr0) == 1 {
 		d := x.evalLoopFn(fr, hdr, ls, ls.decrFn, ls.decrSSA, sub)
